@@ -79,6 +79,8 @@ type Engine struct {
 	aggRegions   map[*AggVal]*Region
 	lastProgress time.Time
 	familyRegs   map[string]*Region
+	localsBase   localsBaseline      // spec/locals.baseline.json
+	curAliases   map[string][]string // current local name -> baseline names it replaces (function being verified)
 	deadline     time.Time
 	feasN        int
 	inlinedExt   map[string]bool
@@ -1205,6 +1207,35 @@ func forceLift(t *Term) *Term {
 
 func (e *Engine) bitOp(op token.Token, a, b *Term, typ types.Type) *Term {
 	a, b = forceLift(expand01poly(a)), forceLift(expand01poly(b))
+	// signed operands that may be negative: the simplifications and the axioms of the uninterpreted bit functions
+	// below are facts about non-negative integers.  Work on the two's-complement representatives instead
+	// (a mod 2^w), and map the result back to the signed range.
+	if tlo, _ := intRange(typ); tlo != nil && tlo.Sign() < 0 {
+		nonneg := func(t *Term) bool {
+			if t.IsConst() {
+				return t.Val.Sign() >= 0
+			}
+			lo, _ := rangeOf(t)
+			return lo != nil && lo.Sign() >= 0
+		}
+		if !nonneg(a) || !nonneg(b) {
+			w := bitWidth(typ)
+			W := new(big.Int).Lsh(big1, uint(w))
+			var ut types.Type = types.Typ[types.Uint64]
+			switch w {
+			case 8:
+				ut = types.Typ[types.Uint8]
+			case 16:
+				ut = types.Typ[types.Uint16]
+			case 32:
+				ut = types.Typ[types.Uint32]
+			}
+			r := e.bitOp(op, mkModC(a, W), mkModC(b, W), ut)
+			return lift1(r, func(r *Term) *Term {
+				return mkIte(mkLt(r, mkInt(new(big.Int).Rsh(W, 1))), r, mkSub(r, mkInt(W)))
+			})
+		}
+	}
 	if a.Op == "ite" && countLeaves(a)*countLeaves(b) <= 64 {
 		return mkIte(a.Args[0], e.bitOp(op, a.Args[1], restrict(b, a.Args[0], true), typ), e.bitOp(op, a.Args[2], restrict(b, a.Args[0], false), typ))
 	}
@@ -1925,34 +1956,51 @@ func countPhis(b *ssa.BasicBlock) int {
 func (e *Engine) execInstr(st *State, fr *Frame, in ssa.Instruction) {
 	switch in := in.(type) {
 	case *ssa.DebugRef:
-		if id, ok := in.Expr.(interface{ String() string }); ok && in.IsAddr && fr.topLevel {
+		idv, ok := in.Expr.(interface{ String() string })
+		if !ok {
+			return
+		}
+		// the name, and the baseline names it replaces after a rename (localsig.go)
+		names := []string{idv.String()}
+		if fr.topLevel {
+			names = append(names, e.curAliases[idv.String()]...)
+		}
+		if in.IsAddr && fr.topLevel {
 			// address-taken local: the name denotes the variable's storage
 			if v, ok2 := fr.vals[in.X]; ok2 {
 				if _, isPtr := v.(*PtrVal); isPtr {
-					if _, exists := st.names[id.String()]; !exists || st.weak[id.String()] {
-						st.names[id.String()] = v
-						st.weak[id.String()] = true // storage binding: does not make a cut ready
+					for _, nm := range names {
+						if _, exists := st.names[nm]; !exists || st.weak[nm] {
+							st.names[nm] = v
+							st.weak[nm] = true // storage binding: does not make a cut ready
+						}
 					}
 				}
 			}
 		}
-		if id, ok := in.Expr.(interface{ String() string }); ok && !in.IsAddr {
+		if !in.IsAddr {
 			if v, ok2 := fr.vals[in.X]; ok2 && fr.topLevel {
-				st.names[id.String()] = v
-				delete(st.weak, id.String())
-				if st.lastBind[id.String()] != in.X {
-					st.lastBind[id.String()] = in.X
-					st.binds[id.String()]++
+				for _, nm := range names {
+					st.names[nm] = v
+					delete(st.weak, nm)
+					if st.lastBind[nm] != in.X {
+						st.lastBind[nm] = in.X
+						st.binds[nm]++
+					}
 				}
 				e.checkCuts(st, fr)
 			} else if c, ok3 := in.X.(*ssa.Const); ok3 && fr.topLevel {
 				// `var x T` declarations bind the zero constant: a weak binding that does not make a cut ready
-				st.names[id.String()] = constValue(e, c)
-				st.weak[id.String()] = true
+				for _, nm := range names {
+					st.names[nm] = constValue(e, c)
+					st.weak[nm] = true
+				}
 				return
 			}
 			if fr.topLevel {
-				delete(st.weak, id.String())
+				for _, nm := range names {
+					delete(st.weak, nm)
+				}
 			}
 		}
 	case *ssa.Alloc:
